@@ -39,8 +39,12 @@ func NewQueryIgnoreHandler(parser *sqlparser.Parser) *QueryIgnoreHandler {
 
 // CheckQuery checks each query, returns false if query handling should be ignored.
 func (handler *QueryIgnoreHandler) CheckQuery(rawQuery string, parsedQuery sqlparser.Statement) (bool, error) {
-	normalizedQ := sqlparser.String(parsedQuery)
-	if handler.ignoredQueries[normalizedQ] || handler.ignoredQueries[rawQuery] {
+	// compare in normalized form (like allow/deny handlers do) when the query was parsed, and as is otherwise
+	if parsedQuery != nil && handler.ignoredQueries[sqlparser.String(parsedQuery)] {
+		//do not continue query handling
+		return false, nil
+	}
+	if handler.ignoredQueries[rawQuery] {
 		//do not continue query handling
 		return false, nil
 	}
